@@ -73,6 +73,39 @@ fn myrsi_def<T: Dom>(n: usize, k: usize) {
         }
     }
 }
+/// Rsi and MyRSI over an inner view that is not the identity (a 2-point mean written here, so that C05 does not depend on the
+/// crate's Sma): the definitions apply to the values the inner view delivers, not to the raw inputs
+#[derive(Clone)]
+struct Mean2<T> { prev: Option<T>, out: Option<T> }
+impl<T: Dom> View<T> for Mean2<T> {
+    fn update(&mut self, v: T) { self.out = self.prev.map(|p| (p + v) / T::c(2.0)); self.prev = Some(v); }
+    fn last(&self) -> Option<T> { self.out }
+}
+fn over_inner<T: Dom>(n: usize, k: usize) {
+    let mut r = Rsi::new(Mean2 { prev: None, out: None }, n);
+    let mut m = MyRSI::new(Mean2 { prev: None, out: None }, n);
+    let mut inner = Mean2 { prev: None, out: None };
+    let mut h: Vec<T> = vec![];
+    let mut held = T::zero();
+    for t in 0..k {
+        let x = inp::<T>(t);
+        r.update(x); m.update(x); inner.update(x);
+        let Some(y) = inner.last() else { T::oblige(&format!("Rsi/MyRSI(N={n}) over a 2-point mean t={t}: nothing while the inner view has delivered nothing"), Cond::Bool(r.last().is_none() && m.last().is_none())); continue };
+        h.push(y);
+        let (g, l) = gains_losses(&h, n);
+        let spec = if g + l == T::zero() { held } else { (g - l) / (g + l) };
+        held = spec;
+        match (r.last(), m.last()) {
+            (Some(a), Some(b)) => {
+                if l == T::zero() { T::oblige(&format!("Rsi(N={n}) over a 2-point mean t={t}: out == 100 when L == 0"), eq(a, T::c(100.0))); }
+                else { T::oblige(&format!("Rsi(N={n}) over a 2-point mean t={t}: out == 100 G/(G+L) over the inner view's N most recent changes"), eq(a * (g + l), T::c(100.0) * g)); }
+                T::oblige(&format!("MyRSI(N={n}) over a 2-point mean t={t}: out == (G-L)/(G+L) over the inner view's N most recent changes"), eq(b, spec));
+            }
+            (None, None) => T::oblige(&format!("Rsi/MyRSI(N={n}) over a 2-point mean t={t}: report from the N-th delivered value on"), Cond::Bool(h.len() < n)),
+            _ => T::oblige(&format!("Rsi/MyRSI(N={n}) over a 2-point mean t={t}: both report from the N-th delivered value on"), Cond::Bool(false)),
+        }
+    }
+}
 /// strictly rising window => 100 / +1; strictly falling => 0 / -1
 fn monotone_runs<T: Dom>(n: usize, k: usize, rising: bool) {
     let mut r = Rsi::new(Echo::new(), n);
@@ -117,6 +150,7 @@ pub fn units(tier: Tier, seed: u64) -> Vec<Unit> {
         let k = 2 * n + 3;
         u.push(unit!(format!("C05/Rsi-definition/N={n}/k={k}"), rsi_def(n, k)));
         u.push(unit!(format!("C05/MyRSI-definition/N={n}/k={k}"), myrsi_def(n, k)));
+        if n <= 3 { u.push(unit!(format!("C05/over-inner-view/N={n}/k={}", k + 1), over_inner(n, k + 1))); }
         if n <= (if tier == Tier::Quick { 2 } else { 4 }) {
             u.push(unit!(format!("C05/rising/N={n}/k={k}"), monotone_runs(n, k, true)));
             u.push(unit!(format!("C05/falling/N={n}/k={k}"), monotone_runs(n, k, false)));
@@ -145,7 +179,7 @@ pub fn units(tier: Tier, seed: u64) -> Vec<Unit> {
 }
 pub fn meta() -> Meta {
     Meta {
-        functions: vec!["Rsi::{new,update,last}", "MyRSI::{new,update,last}", "Echo::{update,last}"],
+        functions: vec!["Rsi and MyRSI over a non-identity inner view (a harness 2-point mean), N <= 3", "Rsi::{new,update,last}", "MyRSI::{new,update,last}", "Echo::{update,last}"],
         bounds: "N in {1,2,3} (quick; corollaries to 2) / {1..5} (thorough; corollaries to 4); k = 2N+3; inputs unconstrained reals; all comparison outcomes (ties are the else-branch of `change > 0`); in addition (N,k) in {(8,20),(16,36),(2,40),(3,60)} (quick) / up to (32,68),(5,100) (thorough) along the comparison path of a pseudo-random sample input; and N in {10,11} (quick) / {7,10,11,13,16} on fully symbolic shaped streams (alternating a,b; period-3 a,b,c; three free values then flat; flat then three free values), all comparison outcomes; the definitions also at (N,k) in {(33,70),(48,70),(63,70)} (quick) / +{(40,70),(64,130),(100,110)} along a sampled comparison path",
         outside: vec!["N > 5, longer streams", "f64 rounding residue of the running sums (that is C16, not claimed)"],
         assumptions: vec![],
